@@ -697,7 +697,8 @@ func converge(r *core.Run, reconfigure bool) {
 		late := c.content("late.json")
 		pl.files[d+"/late.json"] = true
 		progs[k] = append(progs[k], mutOp{fmt.Sprintf("create %s/late.json = %s", d, late), func() {
-			for i := 0; i < 40; i++ {
+			// long after the burst: the watcher has worked off its backlog by then
+			for i := 0; i < 3000; i++ {
 				e.w.Yield(&sched.Op{Kind: "idle", Path: ""})
 			}
 			writeNoFollow(d+"/late.json", late.Content)
